@@ -171,6 +171,45 @@ def run(cfg):
             ex = 'Xxx<=%d' % (-miss[0]) if miss[0] < 0 else 'Xxx>=%d' % miss[0]
             R.violation('R2', c2, tf.loc, 'day-of-month value(s) %s in %s can resolve into the %s but are not rejected (e.g. "%s %s"): the runtime '
                         'then indexes the month table with month %s' % (miss, month, name.replace('-', ' '), month, ex, '0' if month == 'Jan' else '13'))
+    # ---- R4 zone UNTIL: the compiler resolves the weekday expression itself and stores the resolved month and day
+    R.rule('R4', 'Zone UNTIL expressions are resolved with (untilYear, untilMonth, weekday, day), both results are stored, spills out of the year are refused', floor=3)
+    uf = tr.fn('Transformer._create_zones_with_until_day')
+    c4 = 'tzdb.transformer.Transformer._create_zones_with_until_day'
+    unpack = None
+    for n in ast.walk(uf.node):
+        if isinstance(n, ast.Assign) and isinstance(n.targets[0], ast.Tuple) and isinstance(n.value, ast.Call) \
+                and getattr(n.value.func, 'id', None) == 'calc_day_of_month' and len(n.targets[0].elts) == 2:
+            unpack = n
+    R.instance('R4', c4 + ':call', uf.loc)
+    if unpack is None:
+        R.violation('R4', c4 + ':call', uf.loc, 'the UNTIL day is no longer resolved with calc_day_of_month() into a (month, day) pair')
+    else:
+        args = [ast.unparse(a) for a in unpack.value.args]
+        mvar, dvar = (e.id if isinstance(e, ast.Name) else None for e in unpack.targets[0].elts)
+        okargs = len(args) == 4 and args[0] == "era['untilYear']" and args[1] == "era['untilMonth']"
+        if not okargs:
+            R.violation('R4', c4 + ':call', tr.loc(unpack), 'calc_day_of_month is called with %s, expected (era[\'untilYear\'], era[\'untilMonth\'], weekday, day)' % args)
+        stored = {}
+        for n in ast.walk(uf.node):
+            if isinstance(n, ast.Assign):
+                tg, vl = n.targets[0], n.value
+                pairs = list(zip(tg.elts, vl.elts)) if isinstance(tg, ast.Tuple) and isinstance(vl, ast.Tuple) and len(tg.elts) == len(vl.elts) else [(tg, vl)]
+                for t, v in pairs:
+                    if isinstance(t, ast.Subscript) and ast.unparse(t.value) == 'era' and isinstance(v, ast.Name):
+                        stored[ast.unparse(t.slice).strip("'\"")] = v.id
+        R.instance('R4', c4 + ':store', tr.loc(unpack), 'stored %r' % stored)
+        if stored.get('untilMonth') != mvar or stored.get('untilDay') != dvar:
+            R.violation('R4', c4 + ':store', tr.loc(unpack), 'the resolved pair (%s, %s) is not stored as era[\'untilMonth\'], era[\'untilDay\'] (stored: %r): an expression that '
+                        'resolves into the neighbouring month keeps the written month with the resolved day' % (mvar, dvar, stored))
+        rejected = set()
+        for n in ast.walk(uf.node):
+            if isinstance(n, ast.If) and isinstance(n.test, ast.Compare) and isinstance(n.test.left, ast.Name) and n.test.left.id == mvar \
+                    and isinstance(n.test.ops[0], ast.Eq) and isinstance(n.test.comparators[0], ast.Constant):
+                if any(isinstance(s, ast.Assign) and ast.unparse(s.targets[0]) == 'valid' and ast.unparse(s.value) == 'False' for s in n.body):
+                    rejected.add(n.test.comparators[0].value)
+        R.instance('R4', c4 + ':year-spill', uf.loc, 'rejected months %s' % sorted(rejected))
+        if not {0, 13} <= rejected:
+            R.violation('R4', c4 + ':year-spill', uf.loc, 'a resolution into month %s (another year) is not refused' % sorted({0, 13} - rejected))
     # ---- R3 shipped data
     n_rules = 0
     for db in ('zonedb', 'zonedbx'):
@@ -218,6 +257,11 @@ SELFTEST = [
          find=r"and on_day_of_month <= -1\n", replace="and on_day_of_month < -1\n", rule='R2', construct='previous-year'),
     dict(id='shipped-rule-spills', file='src/ace_time/zonedbx/zone_policies.cpp', regex=True, unique=False, nth=0,
          find=r"(    )12( /\*inMonth\*/,\n    )(\d)( /\*onDayOfWeek\*/,\n    )(\d+)( /\*onDayOfMonth\*/)", replace=r"\g<1>12\g<2>7\g<4>28\6", rule='R3'),
+    dict(id='until-month-not-stored', file='tools/tzdb/transformer.py', find="                era['untilMonth'], era['untilDay'] = month, day\n", replace="                era['untilDay'] = day\n", rule='R4', construct=':store'),
+    dict(id='until-month-13-accepted', file='tools/tzdb/transformer.py', find='                if month == 13:\n                    valid = False\n', replace='                if month == 14:\n                    valid = False\n',
+         rule='R4', construct=':year-spill'),
+    dict(id='until-store-two-statements-silent', file='tools/tzdb/transformer.py', find="                era['untilMonth'], era['untilDay'] = month, day\n",
+         replace="                era['untilMonth'] = month\n                era['untilDay'] = day\n", expect='silent'),
     dict(id='cpp-else-branch-restructured-silent', file='src/ace_time/BasicZoneProcessor.h',
          find='        if (day > daysInMonth) {\n          // TODO: Support shifting from Dec to Jan of following  year.\n          day -= daysInMonth;\n          month++;\n        }\n        return {month, day};',
          replace='        if (day <= daysInMonth) {\n          return {month, day};\n        }\n        return {(uint8_t) (month + 1), (uint8_t) (day - daysInMonth)};', expect='silent'),
